@@ -27,6 +27,11 @@ NEEDS = {
     "C05_TvdZero": ["tvd0"], "C05_TvdUnit": ["Mupalt", "Mconv", "tvd1"],
     "C13_TvdFinite": ["tvdnamed"], "C13_TvdInterior": ["tvdnamed"], "C13_TvdFormula": ["tvdnamed"],
     "C06_TvdConst": ["tvdconst"], "C01_ClosedTvd": ["tvdnamed", "volume"], "C01_ClosedTvdMid": ["tvdnamed"],
+    "C11_Linear": ["linmean"], "C11_Arithmetic": ["arithmean"], "C11_Harmonic": ["harmmean"],
+    "C11_Upwind": ["upmean"], "C11_Geometric": ["geomean"],
+    "C11_Between": ["linmean", "arithmean", "harmmean", "geomean", "upmean"],
+    "C11_Ordering": ["harmmean", "geomean", "arithmean"], "C11_Constants": ["constmeans"],
+    "C11_LinearExact": ["linmean_linear"],
     "C04_DiffInterior": ["Mdiff"], "C04_ConvInterior": ["Mconv"], "C04_UpInterior": ["Mup"],
 }
 # observed outputs that have a reference counterpart (conformance tripwire)
